@@ -26,7 +26,7 @@ ASSUMPTIONS = ['the filter / weight model in this file is written from the optio
                'blacklist intervals are longer than a read and their edges are >=2 bp away from read ends (boundary coincidences are don\'t-care)',
                '--splitFeatures together with -byValue is documented as not implemented and not generated']
 MIN_NONTRIVIAL = {'quick': 100, 'thorough': 12000}
-REQUIRED_MONITORS = ['ret:create_count_table', 'oracle:cells_compared', 'opt:dedup', 'opt:no_indels', 'opt:no_softclips', 'opt:divideMultimapping',
+REQUIRED_MONITORS = ['ret:create_count_table', 'files:several_in_one_call', 'oracle:cells_compared', 'opt:dedup', 'opt:no_indels', 'opt:no_softclips', 'opt:divideMultimapping',
                      'opt:byValue', 'opt:bedfile', 'opt:blacklist', 'opt:contig', 'opt:filterXA', 'opt:filterMP', 'reads:filtered_out', 'reads:half_weight']
 SHARD_TIMEOUT = {'quick': 900, 'thorough': 5400}
 
@@ -330,15 +330,21 @@ def run_case(case):
     r = rng(case['seed'], 'C11', case['i'])
     contigs = [(f'chr{j + 1}', r.choice([3000, 8000])) for j in range(r.randint(1, 3))]
     recs = gen_bam(r, contigs)
+    # several alignment files in one call: the table is the sum of the tables of the files
+    more = [gen_bam(r, contigs) for _ in range(r.choice([0, 0, 0, 1, 2]))]
     with Scratch('c11') as dd:
-        a, feats, mode = make_args(r, os.path.join(dd, 'in.bam'), dd, contigs, recs)
+        a, feats, mode = make_args(r, os.path.join(dd, 'in.bam'), dd, contigs, recs + [x for m in more for x in m])
         bam = write_bam(a['alignmentfiles'][0], contigs, recs)
+        for mi, m in enumerate(more):
+            a['alignmentfiles'].append(write_bam(os.path.join(dd, f'in_more{mi}.bam'), contigs, m))
+        acc.count('files:several_in_one_call', 1 if more else 0)
         ns = SimpleNamespace(**{k: v for k, v in a.items() if not k.startswith('_')})
         shown = {k: v for k, v in a.items() if k not in ('alignmentfiles', 'showtags', 'o', 'head', 'noNames', 'feature_delimiter', 'bulk') and v not in (None, False)}
         for o in ('dedup', 'no_indels', 'no_softclips', 'divideMultimapping', 'byValue', 'bedfile', 'blacklist', 'contig', 'filterXA', 'filterMP'):
             acc.count('opt:' + o, 1 if a[o] else 0)
         wit = {'options': {k: (str(v) if not isinstance(v, (int, float, str, bool)) else v) for k, v in shown.items()}, 'feature_mode': mode,
-               'reads': [(x['name'], x['flag'], contigs[x['tid']][0], x['pos'], x['mapq'], x['cigar'], x['tags']) for x in recs][:70]}
+               'reads': [(x['name'], x['flag'], contigs[x['tid']][0], x['pos'], x['mapq'], x['cigar'], x['tags']) for x in recs][:70],
+               'further_files': [[(x['name'], x['flag'], contigs[x['tid']][0], x['pos'], x['mapq'], x['cigar'], x['tags']) for x in m][:40] for m in more]}
         try:
             with contextlib.redirect_stdout(io.StringIO()):
                 df = b2c.create_count_table(ns, return_df=True)
@@ -351,6 +357,12 @@ def run_case(case):
         acc.evals += 1
         acc.count('ret:create_count_table')
         exp, stats = model(recs, contigs, a, feats, mode)
+        for m in more:
+            e2, s2 = model(m, contigs, a, feats, mode)
+            for k2, v2 in e2.items():
+                exp[k2] = exp.get(k2, 0) + v2
+            for k2, v2 in s2.items():
+                stats[k2] = stats.get(k2, 0) + v2
         acc.count('reads:filtered_out', stats['filtered'])
         acc.count('reads:half_weight', stats['half'])
         got = normalise_df(df)
